@@ -301,6 +301,7 @@ pub fn run(tier: &str) -> i32 {
     progs.extend(io_host_space());
     progs.extend(multi_var_space());
     progs.extend(lookalike_space());
+    progs.extend(crate::c06::int64_space());
     progs.extend(named_members_space());
     // declarations-only modules (no entry point): structs reachable from variables are emitted and checked all the same
     {
